@@ -69,6 +69,9 @@ def gen_case(rng, strings, idx):
             argexprs.append("%s + %s" % (gen_strings.go_quote(a[:k]), gen_strings.go_quote(a[k:])))
         else:
             argexprs.append(q)
+        if rng.random() < 0.25:
+            # an argument computed by a function call (the call's value is used even when the command's output is not)
+            argexprs[-1] = "id(%s)" % argexprs[-1]
     plen = rng.choice([1, 1, 2, 3])
     kinds = ["probe"] + [rng.choice(["upper", "count", "rev"]) for _ in range(plen - 1)]
     names = []
@@ -94,6 +97,7 @@ def gen_case(rng, strings, idx):
     out += "done\n"
     if in_func:
         lines = ["func run() {"] + ["\t" + l for l in lines] + ["}", "run()"]
+    lines = ["func id(a string) string {", "\treturn a", "}"] + lines
     src = "\n".join(lines) + "\n"
     # outputs with more than one trailing line feed are not generated (bash strips them all; the property says "its trailing newline")
     multi_nl = captured and text.endswith("\n\n")
